@@ -23,7 +23,7 @@ CONFIG = {
     "runs": runs,
     "status": "FULL for the plain sampler (Ddnnf::sample_t_wise), PARTIAL for the fitness-guided variant. "
               "FULL (Coq, Props/C09.v): (0) C09_sample_t_wise_covers - for every WFQ circuit C over n >= 1 features with root_count > 0 in "
-              "which no node lists a child twice (nodup_children), every t >= 1, EVERY order oracle that returns permutations (ord_int: "
+              "which no node lists a child twice (nodup_children), every t, EVERY order oracle that returns permutations (ord_int: "
               "iteration order of the HashSet of cross interactions per ZippingMerger::merge call; ord_sort: order of equally long samples "
               "after sort_unstable in merge_all; ord_shuf: the shuffle of literals_to_resample) and EVERY trim choice (trim_pick: which "
               "configurations trim_and_resample removes - the f64 ranks of calc_stats are abstracted by this oracle, coverage is proved for "
